@@ -796,4 +796,38 @@ theorem guards_multi_tag (arrays : List DataArray) (t : MultiTag)
   rw [guards_check_multi_tag, hf]
   exact congrArg Except.ok (chain7 _ _ _ _ _ _ _ _ _ _ _ _ _ _)
 
+/-! ## get_dim_units -/
+
+/-- the reads of the loop of `get_dim_units` for one descriptor -/
+def dimUnitEnv (d : Dim) : Read → Val
+  | .dim_dimension_type => .enum (kindName d.kind)
+  | .dim_unit => ofOptStr d.unit
+  | _ => .none
+
+/-- one iteration appends the descriptor's unit ("" for none, an empty one, or a set descriptor) -/
+theorem appended_dimUnit (d : Dim) :
+    appended (dimUnitEnv d) getDimUnitsBranches =
+      .ok (some (.str (match d.kind with
+        | .range | .sample => (match d.unit with | some u => if u.isEmpty then [] else u | none => [])
+        | .set => []))) := by
+  have e : "".toList = ([] : List Char) := rfl
+  rcases d with ⟨kind, index, ticks, nLabels, interval, unit⟩
+  cases kind <;> cases unit with
+  | none => simp [getDimUnitsBranches, appended, eval, dimUnitEnv, kindName, ok_bind, pure_ok, compare_eq_enum, truthy,
+      ofOptStr, e]
+  | some u =>
+    by_cases hu : u.isEmpty = true <;>
+      simp [getDimUnitsBranches, appended, eval, dimUnitEnv, kindName, ok_bind, pure_ok, compare_eq_enum, truthy,
+        ofOptStr, e, hu]
+
+/-- `get_dim_units`, compiled, is the model's `getDimUnits` -/
+theorem collected_getDimUnits (dims : List Dim) :
+    collected getDimUnitsBranches (dims.map dimUnitEnv) =
+      .ok ((getDimUnits { ent := ⟨none, none, false, none, none⟩, dataType := none, shape := [], dims := dims }).map .str) := by
+  induction dims with
+  | nil => rfl
+  | cons d rest ih =>
+    simp only [List.map_cons, collected, appended_dimUnit, ih, getDimUnits]
+    cases d.kind <;> rfl
+
 end Nix.Validator.Lemmas
